@@ -2,11 +2,11 @@ package main
 
 import (
 	"fmt"
-	"sync"
 	"go/token"
 	"go/types"
 	"sort"
 	"strings"
+	"sync"
 
 	"golang.org/x/tools/go/ssa"
 )
@@ -28,9 +28,9 @@ type Obligation struct {
 }
 
 type Event struct {
-	Name string
-	Args []Term
-	Pos  token.Pos
+	Name      string
+	Args      []Term
+	Pos       token.Pos
 	Uncertain bool // recorded after a loop cut: counts are lower bounds only
 }
 
@@ -42,30 +42,30 @@ type deferred struct {
 }
 
 type Frame struct {
-	fn      *ssa.Function
-	regs    map[ssa.Value]Val
-	defers  []deferred
-	parent  *Frame
-	depth   int
-	params  []Val // entry values of parameters
+	fn       *ssa.Function
+	regs     map[ssa.Value]Val
+	defers   []deferred
+	parent   *Frame
+	depth    int
+	params   []Val // entry values of parameters
 	contract *Contract
-	active  map[*ssa.BasicBlock]bool // loop headers currently cut
-	visits  map[*ssa.BasicBlock]int
+	active   map[*ssa.BasicBlock]bool // loop headers currently cut
+	visits   map[*ssa.BasicBlock]int
 }
 
 type State struct {
-	ctx    *Ctx
-	fr     *Frame
-	cells  map[int]*Cell
-	heap   map[string]Term
-	tainted map[string]bool // heap component was havocked (entry-bound facts no longer apply)
-	pc     []string
-	ghost  map[string]Val
-	trace  []Event
-	dry    *dryInfo // non-nil during a loop dry run (collect modified heap keys)
-	entry  *State   // snapshot at function entry (for old())
-	pathID int
-	dead   bool
+	ctx        *Ctx
+	fr         *Frame
+	cells      map[int]*Cell
+	heap       map[string]Term
+	tainted    map[string]bool // heap component was havocked (entry-bound facts no longer apply)
+	pc         []string
+	ghost      map[string]Val
+	trace      []Event
+	dry        *dryInfo // non-nil during a loop dry run (collect modified heap keys)
+	entry      *State   // snapshot at function entry (for old())
+	pathID     int
+	dead       bool
 	lastReturn ssa.Instruction
 	blocking   []string
 	selects    [][]string
@@ -118,41 +118,41 @@ type dryInfo struct {
 
 // Ctx is the per-function verification context.
 type Ctx struct {
-	eng     *Engine
+	eng        *Engine
 	eventsSeen map[string]bool // every event name produced on any path (vacuity guard for event literals in contracts)
-	fn      *ssa.Function
-	contract *Contract
-	decls   []string
-	declSet map[string]bool
-	fresh   int
-	allocN  int
-	cellN   int
-	obls    []*Obligation
-	paths   int
-	endStates int
-	strLits map[string]int64
-	notes   []string // assumptions used (opaque calls, extern contracts, ...)
-	noteSet map[string]bool
-	oblNames map[ssa.Instruction]map[string]string
-	retCount int
-	maxPaths int
-	pathSeq  int
-	forkHist map[string]int
+	fn         *ssa.Function
+	contract   *Contract
+	decls      []string
+	declSet    map[string]bool
+	fresh      int
+	allocN     int
+	cellN      int
+	obls       []*Obligation
+	paths      int
+	endStates  int
+	strLits    map[string]int64
+	notes      []string // assumptions used (opaque calls, extern contracts, ...)
+	noteSet    map[string]bool
+	oblNames   map[ssa.Instruction]map[string]string
+	retCount   int
+	maxPaths   int
+	pathSeq    int
+	forkHist   map[string]int
 	loopCovers map[int][]*Obligation
-	axioms   []axiomText
-	frame    []frameLoc
-	frameDone bool
-	frameErr []string
-	closureN int
-	closures map[string]*Closure // by id term
-	loopHdrs map[*ssa.BasicBlock]*loopInfo
+	axioms     []axiomText
+	frame      []frameLoc
+	frameDone  bool
+	frameErr   []string
+	closureN   int
+	closures   map[string]*Closure // by id term
+	loopHdrs   map[*ssa.BasicBlock]*loopInfo
 }
 
 type loopInfo struct {
-	header *ssa.BasicBlock
-	body   map[*ssa.BasicBlock]bool
+	header  *ssa.BasicBlock
+	body    map[*ssa.BasicBlock]bool
 	ordinal int
-	allocs []*ssa.Alloc // allocs defined outside the loop and stored inside
+	allocs  []*ssa.Alloc // allocs defined outside the loop and stored inside
 }
 
 var noteMu sync.Mutex
